@@ -86,7 +86,18 @@ func (vfs *BasePathFS) FromPathError(err error) error {
 		return err
 	}
 
-	return &fs.PathError{Op: e.Op, Path: vfs.FromBasePath(e.Path), Err: e.Err}
+	return &fs.PathError{Op: e.Op, Path: vfs.fromErrorPath(e.Path), Err: e.Err}
+}
+
+// fromErrorPath is FromBasePath for the paths reported in the errors of the base file system :
+// a path that is not below the base path (reached through a symbolic link of the base file system)
+// is left as it is.
+func (vfs *BasePathFS) fromErrorPath(path string) string {
+	if !strings.HasPrefix(path, vfs.basePath) {
+		return path
+	}
+
+	return vfs.FromBasePath(path)
 }
 
 // FromLinkError restore paths in os.LinkError if necessary.
@@ -96,7 +107,7 @@ func (vfs *BasePathFS) FromLinkError(err error) error {
 		return err
 	}
 
-	return &os.LinkError{Op: e.Op, Old: vfs.FromBasePath(e.Old), New: vfs.FromBasePath(e.New), Err: e.Err}
+	return &os.LinkError{Op: e.Op, Old: vfs.fromErrorPath(e.Old), New: vfs.fromErrorPath(e.New), Err: e.Err}
 }
 
 // ToBasePath transforms a BasePathFS path to an internal path.
